@@ -81,6 +81,7 @@ func init() {
 		"vfIteInt":      vfIteInt,
 		"vfConcrete":    vfConcrete,
 		"vfThread":      vfThread,
+		"vfFresh": func(in *Interp, fn *ssa.Function, a []Value) Value { return a[0] },
 		"vfRunewidthEastAsian": func(in *Interp, fn *ssa.Function, a []Value) Value {
 			in.setRwEastAsian(a[0].(*Term))
 			return nil
